@@ -134,6 +134,21 @@ Section Scale.
   Definition mk_box (l : list (axis * (option Z * option Z))) : box :=
     fold_left (fun b e => nbox_insert b (fst e) (fst (snd e)) (snd (snd e))) l [].
 
+  (* FeatureVariationsProvider::new: the conditions of one set (in the IR's sorted order) are
+     gathered per axis, a repeated axis intersects (Option::max on the minima, the smaller of the
+     maxima), then inserted into an NBox *)
+  Definition opt_min_hi (a b : option Z) : option Z :=
+    match a, b with Some x, Some y => Some (Z.min x y) | Some x, None => Some x | None, y => y end.
+  Definition opt_max_lo (a b : option Z) : option Z :=
+    match a, b with Some x, Some y => Some (Z.max x y) | Some x, None => Some x | None, y => y end.
+  Definition gather_conditions (l : list (axis * (option Z * option Z))) : list (axis * (option Z * option Z)) :=
+    fold_left (fun acc e =>
+                 match kv_find acc (fst e) with
+                 | Some cur => kv_set acc (fst e) (opt_max_lo (fst cur) (fst (snd e)), opt_min_hi (snd cur) (snd (snd e)))
+                 | None => kv_set acc (fst e) (snd e)
+                 end) l [].
+  Definition box_of_conditions (l : list (axis * (option Z * option Z))) : box := mk_box (gather_conditions l).
+
   (* NBox::cleanup *)
   Definition box_cleanup (b : box) : box :=
     filter (fun e => negb (range_eqb (snd e) full_range)) b.
@@ -197,7 +212,8 @@ Section Scale.
                 (map box_cleanup r).
 End Scale.
 
-(* ---- Rank: SmallVec<[u64;4]>, most significant word first -------------------- *)
+(* ---- Rank: SmallVec<[u64;4]>, most significant word first (as repaired: `|=` aligned at the
+   least significant word, sort key = number of set bits) ------------------------------------- *)
 Definition rank := list N.
 
 Definition rank_new (v : nat) : rank :=
@@ -206,8 +222,8 @@ Definition rank_new (v : nat) : rank :=
 Fixpoint pop_pos (p : positive) : N :=
   match p with xH => 1 | xO q => pop_pos q | xI q => 1 + pop_pos q end%N.
 Definition popcount (n : N) : N := match n with N0 => 0%N | Npos p => pop_pos p end.
-(* u64::count_zeros summed over the words *)
-Definition count_zeros (r : rank) : N := fold_right (fun w acc => (64 - popcount w) + acc)%N 0%N r.
+(* u64::count_ones summed over the words *)
+Definition count_ones (r : rank) : N := fold_right (fun w acc => popcount w + acc)%N 0%N r.
 Definition is_all_zeros (r : rank) : bool := forallb (fun w => (w =? 0)%N) r.
 Definition first_bit_is_set (r : rank) : bool := N.odd (last r 0%N).
 Fixpoint shr1 (r : rank) (carry : N) : rank :=
@@ -228,10 +244,10 @@ Definition rank_bitor (self rhs : rank) : rank :=
   let '(out, other) := if (length rhs <? length self)%nat then (self, rhs) else (rhs, self) in
   rev (or_prefix (rev out) (rev other)).
 (* impl BitOrAssign: pad self at the front with rhs's leading words, then OR
-   aligned at the FRONT *)
+   aligned at the END (least significant word) *)
 Definition rank_bitor_assign (self rhs : rank) : rank :=
   let missing := (length rhs - length self)%nat in
-  or_prefix (firstn missing rhs ++ self) rhs.
+  rev (or_prefix (rev (firstn missing rhs ++ self)) (rev rhs)).
 
 (* ---- overlay_feature_variations ---------------------------------------------- *)
 Definition boxmap := list (box * rank).     (* IndexMap<NBox, Rank>: insertion ordered *)
@@ -260,7 +276,11 @@ Section Scale2.
   Fixpoint overlay_loop (rules : list rule) (i : nat) (m : boxmap) : boxmap :=
     match rules with
     | [] => m
-    | (reg, _) :: t => overlay_loop t (S i) (overlay_step reg (rank_new i) m)
+    | (reg, _) :: t =>
+        match reg with
+        | [] => overlay_loop t (S i) m      (* `continue`: a rule without condition set never applies *)
+        | _ => overlay_loop t (S i) (overlay_step reg (rank_new i) m)
+        end
     end.
 
   (* merge_same_sub_rules: IndexMap keyed by the substitution map *)
@@ -315,12 +335,13 @@ Section Scale2.
              end
     end.
 
-  Definition sort_by_zeros (m : boxmap) : boxmap :=
-    stable_sort (fun x y => (count_zeros (snd y) <? count_zeros (snd x))%N) m.
+  (* sort_by_key(Reverse(count_ones)): most contributing rules first, stable *)
+  Definition sort_by_ones (m : boxmap) : boxmap :=
+    stable_sort (fun x y => (count_ones (snd x) <? count_ones (snd y))%N) m.
 
   (* overlay over rules that already went through the preflight *)
   Definition overlay_merged (rules : list rule) : res (list (box * list submap)) :=
-    collect_items (map snd rules) (sort_by_zeros (overlay_loop rules 0 init_map)).
+    collect_items (map snd rules) (sort_by_ones (overlay_loop rules 0 init_map)).
 
   Definition overlay_feature_variations (rules : list rule) : res (list (box * list submap)) :=
     overlay_merged (preflight rules).
